@@ -128,11 +128,15 @@ class ModelModifier:
     # buffer offsets.
 
     # remove all the constant from the model.
-    for buffer in quantized_model.buffers:
+    for buffer_idx, buffer in enumerate(quantized_model.buffers):
       if buffer.data is not None:
         buffer.data = None
         buffer.offset = 1
-        buffer.size = 1
+        # Flatbuffers does not encode a field that holds its default (0): the
+        # placeholder size must be zero exactly when the final size is, or the
+        # dummy serialization is longer than the final one and every offset
+        # computed from it is off.
+        buffer.size = 1 if self._constant_map[buffer_idx] else 0
     dummy_bytearray = flatbuffer_utils.convert_object_to_bytearray(
         quantized_model
     )
